@@ -1045,12 +1045,12 @@ def gen_cc(control):
 # ---------------------------------------------------------------------------------------
 REPLAY_BARS = [
     [["4", [["C", 4, 1, 64]], None], ["4", [["E", 4, 1, 64], ["G", 4, 2, 90]], None], ["4", None, None], ["4", [["A", 3, 1, 70]], None]],
-    [["8*3:2", [["D", 5, 1, 64]], None], ["8*3:2", [["F", 5, 1, 64]], None], ["8*3:2", [["A", 5, 3, 64]], None], ["2", [["Bb", 2, 1, 64]], None]],
+    [["8*3:2", [["D", 5, 1, 64]], None], ["8*3:2", [["F", 5, 1, 64]], None], ["8*3:2", [["A", 5, 3, 64]], None], ["2", [["Bb", 2, 1, 64]], None], ["4", [["G", 3, 1, 64]], None]],
     [["2", [["F#", 4, 1, 64], ["A", 4, 1, 64]], None], ["2", [["C", 5, 1, 100]], None]],
 ]
 REPLAY_EDITS = [["none"], ["setitem", 0, [["G", 2, 1, 64]]], ["setitem", 1, [["Eb", 6, 1, 64], ["Bb", 6, 2, 64]]], ["swap_last", "8", [["B", 4, 1, 64]]],
                 ["swap_last", "4.", [["D", 3, 1, 64]]], ["transpose", "3"], ["note_octave_up"], ["carrier", 0, 60]]
-REPLAY_VIAS = ["play_Bar", "play_Bars", "play_Track", "play_Bars_doubled", "play_Tracks_doubled"]
+REPLAY_VIAS = ["play_Bar", "play_Bars", "play_Track", "play_Bars_doubled", "play_Tracks_doubled", "play_Tracks_unequal", "play_Composition_unequal"]
 
 
 def _norm_of(bar, labels):
@@ -1094,11 +1094,53 @@ def _replay_once(S, site, via, seq, observers, bar, labels, bpm):
     judge_play(S, site, exp, seq, observers, ret, not doubled)
 
 
+def _replay_unequal(S, via, bi, edit):
+    """A short track listed before a longer one, played twice from the same list / Composition object: the second playback
+    is the first one again, and the caller's list is what it was."""
+    short_entries, long_entries = REPLAY_BARS[bi], [REPLAY_BARS[(bi + 1) % len(REPLAY_BARS)], REPLAY_BARS[(bi + 2) % len(REPLAY_BARS)]]
+    bars, norm = build_voices([[short_entries], long_entries], (4, 4))
+    if bars is None:
+        raise engine.HarnessError("replay bars refused a placement")
+    tracks = []
+    for bl in bars:
+        t = Track()
+        for b in bl:
+            t.add_bar(b)
+        tracks.append(t)
+    comp = Composition()
+    for t in tracks:
+        comp.add_track(t)
+    exp = T.Expected(norm, 120)
+    seq, observers = rig()
+    caller_list = list(tracks)
+    for attempt in ("first time", "again from the same list"):
+        del seq.stream[:]
+        for _, o in observers:
+            del o.stream[:]
+        if via == "play_Tracks_unequal":
+            ret = seq.play_Tracks(caller_list, [1, 2], 120)
+        else:
+            ret = seq.play_Composition(comp, [1, 2], 120)
+        S.trans(1)
+        seq.stream[:] = [e for e in seq.stream if e[0] != "instr"]
+        for _, o in observers:
+            o.stream[:] = [e for e in o.stream if e[0] != "instr"]
+        judge_play(S, "%s (%s)" % (via, attempt), exp, seq, observers, ret, False)
+        if len(caller_list) != 2 or caller_list[0] is not tracks[0] or caller_list[1] is not tracks[1] or len(comp.tracks) != 2:
+            S.problem("%s: the caller's list of tracks afterwards" % via, "the two tracks it held", [len(caller_list), len(comp.tracks)])
+            return
+    S.count("replays")
+
+
 def run_replay(case):
     """case = [bar index, via, edit]"""
     S = engine.S
     S.sample(case)
     bi, via, edit = case
+    if via.endswith("_unequal"):
+        if edit[0] == "none":
+            _replay_unequal(S, via, bi, edit)
+        return
     entries = REPLAY_BARS[bi]
     bar, norm = build_bar(entries, (4, 4))
     if bar is None:
